@@ -380,7 +380,54 @@ def rule_r7(ctx):
     c17.rule_r4(ctx, rid="C04.R7")
 
 
-RULES = [rule_r1, rule_r2, rule_r3, rule_r4, rule_r5, rule_r6, rule_r7]
+def rule_r8(ctx, rid="C04.R8"):
+    ctx.r.rule(rid, "flush accounting: what send() reports as written is what is skipped in the buffer, subtracted from the buffer's remaining length and from the pending-output counter - one quantity, used four times")
+    p = ctx.p
+    f = p.func("channel.HTTPChannel._flush_some")
+    g = cfg_of(f)
+    sends = [n for n in g.nodes if n.kind == "stmt" and isinstance(n.ast, ast.Assign) and isinstance(n.ast.value, ast.Call) and dotted(n.ast.value.func) == "self.send"
+             and isinstance(n.ast.targets[0], ast.Name)]
+    if len(sends) != 1:
+        raise AnalysisError("_flush_some: expected exactly one `n = self.send(...)`, found %d" % len(sends))
+    sn = sends[0]
+    var = sn.ast.targets[0].id
+    chunk = sn.ast.value.args[0] if sn.ast.value.args else None
+    # the chunk sent is what the buffer yields (peek), and the skip consumes var bytes of the same buffer
+    gets = [n for n in g.nodes if n.kind == "stmt" and isinstance(n.ast, ast.Assign) and isinstance(n.ast.value, ast.Call) and isinstance(n.ast.value.func, ast.Attribute)
+            and n.ast.value.func.attr == "get" and chunk is not None and dotted(n.ast.targets[0]) == dotted(chunk)]
+    buf = dotted(gets[0].ast.value.func.value) if gets else None
+    skips = [(n, c) for n, c in find_calls(g, lambda c: isinstance(c.func, ast.Attribute) and c.func.attr == "skip" and dotted(c.func.value) == buf)]
+    if gets and skips and all(c.args and dotted(c.args[0]) == var and g.dominates(sn, n) for n, c in skips) \
+            and not any(len(gc.ast.value.args) > 1 or gc.ast.value.keywords for gc in gets):
+        ctx.r.ok(rid, "the bytes offered are peeked from %s and exactly %s of them are skipped afterwards" % (buf, var), f.loc(skips[0][0].ast))
+    else:
+        ctx.r.violation(rid, key_of(f, None, "skip-amount"), "_flush_some does not skip exactly the number of bytes send() reported (%s)" % [norm(c)[:40] for _, c in skips], f.loc(sn.ast))
+    # every counter that moves after the send moves by var
+    n_aug = 0
+    for n in g.nodes:
+        if n.kind == "stmt" and isinstance(n.ast, ast.AugAssign) and g.dominates(sn, n) and n.id in g.reach(sn):
+            n_aug += 1
+            if isinstance(n.ast.value, ast.Name) and n.ast.value.id == var:
+                ctx.r.ok(rid, "%s moves by the number of bytes sent" % norm(n.ast.target), f.loc(n.ast))
+            else:
+                ctx.r.violation(rid, key_of(f, n.ast.target, "counter-amount"),
+                                "%s is moved by %s, not by the number of bytes send() reported (%s): after a partial send the buffer is taken for drained (or the backlog counter drifts)"
+                                % (norm(n.ast.target), norm(n.ast.value), var), f.loc(n.ast))
+    ctx.r.floor(rid, n_aug, 3, "counters updated after send()")
+    # the updates happen only when something was sent
+    for n in [x for x in g.nodes if x.kind == "stmt" and isinstance(x.ast, ast.AugAssign) and g.dominates(sn, x) and isinstance(x.ast.op, ast.Sub)]:
+        if not any(pol and dotted(t) == var for (t, pol) in guards_of(g, n)):
+            ctx.r.violation(rid, key_of(f, n.ast.target, "counter-unguarded"), "%s is decremented without `if %s:`" % (norm(n.ast.target), var), f.loc(n.ast))
+
+
+def rule_r9(ctx):
+    """Shared with C19.R3: the 100-continue latch is re-armed when a request completes - otherwise the next expecting
+    request on the connection never gets its interim response and is never executed ('each executed exactly once')."""
+    from . import c19
+    c19.rule_r3(ctx, rid="C04.R9")
+
+
+RULES = [rule_r1, rule_r2, rule_r3, rule_r4, rule_r5, rule_r6, rule_r7, rule_r8, rule_r9]
 
 from ..selftest import M, T, V  # noqa: E402
 
